@@ -336,46 +336,7 @@ pub const EXTRA: &[(&str, &str)] = &[
 /// `rhs.upper * 2^128 < P`, then KnownSmallQuotient while `q_upper * 2^128 < P`, then KnownSmallLhs); a
 /// scheme selected one step too far no longer pins the quotient against decompositions of a + k*P.
 pub fn divrem_lattice() -> Vec<(String, String)> {
-    use num_bigint::BigUint;
-    let two = |k: u32| BigUint::from(1u8) << k;
-    // T = (P - 1) / 2^128 = 2^123 + 17 * 2^64: the largest x with x * 2^128 < P
-    let t = two(123) + BigUint::from(17u8) * two(64);
-    let one = BigUint::from(1u8);
-    let lmaxs: Vec<(String, BigUint)> = vec![
-        ("u8".into(), two(8) - &one),
-        ("u128".into(), two(128) - &one),
-        ("2^200".into(), two(200)),
-        ("T*2^64".into(), &t * two(64)),
-        ("2^246".into(), two(246)),
-        ("2^250".into(), two(250)),
-    ];
-    let dranges: Vec<(String, BigUint, BigUint)> = vec![
-        ("1..255".into(), one.clone(), BigUint::from(255u8)),
-        ("1..T-2".into(), one.clone(), &t - 2u8),
-        ("1..T-1".into(), one.clone(), &t - 1u8),
-        ("1..T".into(), one.clone(), t.clone()),
-        ("1..T+1".into(), one.clone(), &t + 1u8),
-        ("1..2^124-1".into(), one.clone(), two(124) - &one),
-        ("1..2^128-1".into(), one.clone(), two(128) - &one),
-        ("1..2^128".into(), one.clone(), two(128)),
-        ("2^64..2^128-1".into(), two(64), two(128) - &one),
-        ("T..T".into(), t.clone(), t.clone()),
-        ("2^123..2^124".into(), two(123), two(124)),
-        ("2^127..2^128".into(), two(127), two(128)),
-    ];
-    let mut out = vec![];
-    for (ln, lmax) in &lmaxs {
-        for (dn, dmin, dmax) in &dranges {
-            let qmax = lmax / dmin;
-            let lhs_ty = if ln == "u8" || ln == "u128" { ln.clone() } else { format!("BoundedInt<0, {lmax}>") };
-            let code = format!(
-                "#[feature(\"bounded-int-utils\")]\nuse core::internal::bounded_int::{{self, BoundedInt, DivRemHelper, upcast}};\ntype Divisor = BoundedInt<{dmin}, {dmax}>;\nimpl H of DivRemHelper<{lhs_ty}, Divisor> {{\n    type DivT = BoundedInt<0, {qmax}>;\n    type RemT = BoundedInt<0, {}>;\n}}\nfn f(a: {lhs_ty}, b: NonZero<Divisor>) -> (felt252, felt252) {{\n    let (q, r) = bounded_int::div_rem(a, b);\n    (upcast(q), upcast(r))\n}}\n",
-                dmax - &one
-            );
-            out.push((format!("hintx:divrem:{ln}/{dn}"), code));
-        }
-    }
-    out
+    crate::divrem::cases(false).into_iter().map(|c| (c.name, c.code)).collect()
 }
 
 pub fn debug_time(code: &str, arg: i64) {
@@ -429,8 +390,11 @@ fn run_all(ctx: &mut Ctx) {
     let max_vec = tier.pick(9, 49);
     // one work item per (program, input-vector index): spreads the heavy programs over the shards
     let mut cache: Option<(String, cairo_lang_sierra::program::Program)> = None;
+    let divrem_cases: std::collections::HashMap<String, crate::divrem::Case> = crate::divrem::cases(false).into_iter().map(|c| (c.name.clone(), c)).collect();
+    let divrem_vec = tier.pick(12, 60);
     for (name, code) in &progs {
-      for vi in 0..max_vec {
+      let nvec = if divrem_cases.contains_key(name) { max_vec + divrem_vec } else { max_vec };
+      for vi in 0..nvec {
         ctx.case(
             || json!({"space":"programs","program":name,"input_vector_index":vi}),
             |ctx| {
@@ -468,7 +432,13 @@ fn run_all(ctx: &mut Ctx) {
                     if !fname(f).starts_with("test::") {
                         continue;
                     }
-                    let Some(inputs) = input_vectors(&prog, f, true, 3, max_vec) else { continue };
+                    let Some(mut inputs) = input_vectors(&prog, f, true, 3, max_vec) else { continue };
+                    // the division lattice also runs at the operand pairs where the relation the generated code
+                    // verifies (min(q, b) < ceil(sqrt(max)), q below its bound) changes
+                    if let Some(dc) = divrem_cases.get(name) {
+                        inputs.truncate(max_vec);
+                        inputs.extend(crate::divrem::relation_inputs_small(dc, divrem_vec).into_iter().map(|(a, b)| vec![Arg::Value(Felt::from(&a)), Arg::Value(Felt::from(&b))]));
+                    }
                     // results are compared address-free: arrays/boxes/nullables are dereferenced through the final
                     // memory; functions whose result cannot be canonicalised (dicts, EC state) are not judged
                     let Some(sizes) = &sizes else { continue };
